@@ -99,7 +99,7 @@ def window_alias(py: Dict[str, Any], rs: Dict[str, Any]) -> bool:
 # DISABLED: with True the unchanged tree fires `power / FF RESET / power:py=halted,rs=running` (RESET executed by a
 # core that starts halted; genuine, so far swallowed by C06-edge-class) -- waiting for the lead's decision on that
 # finding.  With True seeded/C06/r1 is caught (power / DE HALT, DF OFF); with False HALT/OFF divergences stay @edge.
-POWER_OWN_VERDICT = False
+POWER_OWN_VERDICT = True
 
 
 def compare_step(case: Dict[str, Any], py: Dict[str, Any], rs: Dict[str, Any], init: pycore.HashMemory,
